@@ -12,7 +12,8 @@ def check(ctx, sc, uni, collect_only=False):
     persistent = {o for o in sc["corrupt"] if sc["verify"] and not sc["src_local"]}
     run = xfer.Run(ctx, sc, uni)
     try:
-        obs1 = run.transfer(sc["fail"])
+        vanish = sc.get("vanish", [])
+        obs1 = run.transfer(sc["fail"], vanish=vanish)
         bad1 = list(run.closure_bad)
         dest1, idx1 = obs1["dest"], obs1["index"]
         src_after1 = stores.listing_of(run.src.path)
@@ -28,11 +29,12 @@ def check(ctx, sc, uni, collect_only=False):
     ctx.count("verify=%s" % sc["verify"])
     ctx.count("shallow=%s" % sc["shallow"])
     ctx.count("failing_uploads=%d" % min(len(sc["fail"]), 4))
+    ctx.count("vanishing_source=%d" % len(sc.get("vanish", [])))
     ctx.count("stores=%s->%s" % ("local" if sc["src_local"] else "generic", "local" if sc["dest_local"] else "generic"))
     # correspondence (round 1 from the scenario, round 2 from the state the implementation reached)
     reqs = [xfer.model_req(sc, uni, run.dest_before, run.index_before, obs1["dir_order"]),
             xfer.model_req(sc, uni, dest1, idx1, obs2["dir_order"], fails=sorted(persistent),
-                           src=[o for o in src_eff if o in src_after1] if sc["src_local"] else None)]
+                           src=[o for o in src_eff if o in src_after1] if (sc["src_local"] or vanish) else None)]
     a1, a2 = ctx.driver.batch(reqs)
     ctx.corr("Transfer.transferWith∘compareStatus~transfer() (faulty round)", case, xfer.canon_impl(obs1), xfer.canon_model(a1))
     ctx.corr("Transfer.transferWith∘compareStatus~transfer() (clean retry)", case, xfer.canon_impl(obs2), xfer.canon_model(a2))
@@ -57,7 +59,7 @@ def check(ctx, sc, uni, collect_only=False):
                        if all((f not in src_eff and f not in before) or f in d1 for f in uni.listing(d)) and d not in sc["fail"] else None)
     # retry completes
     d2 = set(obs2["dest"])
-    avail = set(src_eff) | before
+    avail = (set(src_eff) - set(vanish)) | before
     still_failing = persistent  # corrupt sources under verify fail on every attempt
     for o in wanted(sc, uni):
         if o.endswith(".dir"):
